@@ -101,6 +101,11 @@ SHAPES_MAP2 = (
     {"s": [SLOT, SLOT]},
     {"m": {"a": SLOT}, "a": SLOT},
 )
+# a sequence that is directly an element of another sequence (anchor replacement has its own arm for it)
+SHAPES_NESTED = (
+    {"a": SLOT, "s": [[SLOT]]},
+    {"s": [[SLOT], SLOT]},
+)
 SHAPES_SEQ2 = ([SLOT, SLOT],)
 SHAPES_MAP3 = (
     {"a": SLOT, "b": SLOT, "s": [SLOT]},
@@ -647,9 +652,9 @@ def _four_slot_fillings():
 
 TIERS = {
     # map shapes, seq shapes, literals of the 2-slot fillings, extra (3/4-slot) shapes, style pairs, merge policies, random pairs
-    "quick": dict(map2=SHAPES_MAP2[:3], seq2=SHAPES_SEQ2, lits=("1",), extra=False,
+    "quick": dict(map2=SHAPES_MAP2[:3] + SHAPES_NESTED, seq2=SHAPES_SEQ2, lits=("1",), extra=False,
                   styles=(("block", "block"), ("flow", "flow")), merge_policies=MERGE_POLICIES[:4], nrandom=3000),
-    "thorough": dict(map2=SHAPES_MAP2, seq2=SHAPES_SEQ2, lits=LITS, extra=True,
+    "thorough": dict(map2=SHAPES_MAP2 + SHAPES_NESTED, seq2=SHAPES_SEQ2, lits=LITS, extra=True,
                      styles=(("block", "block"), ("flow", "flow")), merge_policies=MERGE_POLICIES, nrandom=40000),
 }
 
